@@ -1008,6 +1008,13 @@ class TermBuilder:
                 return const(-x[1])
             if op == '+':
                 return x
+            if op == 'not' and x[0] == 'cmp' and x[1] in ('<', '<=') and any(
+                    (s[0] == 'c' and isinstance(s[1], int) and not isinstance(s[1], bool)) or
+                    (s[0] == 'call' and s[1] == ('g', 'builtins.len')) for s in (x[2], x[3])):
+                # integers: not (a < b) is b <= a, not (a <= b) is b < a (one side is an int constant or a len())
+                return ('cmp', '<=' if x[1] == '<' else '<', x[3], x[2])
+            if op == 'not' and x[0] == 'cmp' and x[1] in ('==', '!=', 'in', 'not in', 'is', 'is not'):
+                return ('cmp', {'==': '!=', '!=': '==', 'in': 'not in', 'not in': 'in', 'is': 'is not', 'is not': 'is'}[x[1]], x[2], x[3])
             return ('un', op, x)
         if isinstance(e, ast.Compare):
             parts, left = [], b(e.left)
@@ -1123,11 +1130,8 @@ def item(t, i):
 
 def subscript(base, idx):
     # pair[1] for pair in enumerate(X) / zip(X, Y) is the unpacked component
-    if base[0] == 'iter' and idx[0] == 'c' and isinstance(idx[1], int) and not isinstance(idx[1], bool) and idx[1] >= 0 and \
-            base[1][0] == 'call' and base[1][1] in (('g', 'builtins.enumerate'), ('g', 'builtins.zip')):
-        r = item(base, idx[1])
-        if r[0] != 'item':
-            return r
+    if base[0] == 'iter' and idx[0] == 'c' and isinstance(idx[1], int) and not isinstance(idx[1], bool) and idx[1] >= 0:
+        return item(base, idx[1])          # the same term tuple unpacking of the element gives
     # X[a:len(X)] is X[a:], X[0:b] is X[:b] (unit step)
     if idx[0] == 'slice' and len(idx) == 4 and idx[3] in (('c', None), ('c', 1)):
         lo, hi = idx[1], idx[2]
